@@ -179,10 +179,16 @@ pub fn generate_c09(seed: u64, tier: &str, sink: &mut Sink) {
 }
 
 pub fn generate_c10(seed: u64, tier: &str, sink: &mut Sink) {
-    let mut rng = Rng::new(seed ^ 0xC10);
     let n = if tier == "thorough" { 20_000 } else { 1500 };
+    generate_chains(seed ^ 0xC10, n, false, sink)
+}
+
+/// redirect chains that change host / port / scheme / proxy applicability; `proxy_focus`: always a
+/// proxy configuration and simple bodies (used by C11: the proxy decision as it is *used* by send)
+pub fn generate_chains(seed: u64, n: usize, proxy_focus: bool, sink: &mut Sink) {
+    let mut rng = Rng::new(seed);
     for _ in 0..n {
-        let body = gen_body(&mut rng);
+        let body = if proxy_focus { BodyR::Text("p".into()) } else { gen_body(&mut rng) };
         let nhops = rng.range(2, 4) as usize;
         // chains that change host, port, scheme, and proxy applicability
         let targets = ["http://a.test/one", "http://b.test:8080/two?x=1", "https://c.test/three", "http://noproxy.test/four", "http://a.test:81/five", "https://[::1]:8443/six"];
@@ -198,7 +204,7 @@ pub fn generate_c10(seed: u64, tier: &str, sink: &mut Sink) {
                 urls.push(next);
             }
         }
-        let use_proxy = rng.chance(1, 3);
+        let use_proxy = proxy_focus || rng.chance(1, 3);
         let case = SendCase {
             method: rng.pick(&["POST", "PUT", "GET", "DELETE"]).to_string(),
             url: start,
